@@ -851,6 +851,26 @@ def m_eq(I, st, info, args, depth):
     a, b = deref(I, st, args[0]), deref(I, st, args[1])
     if isinstance(a, Aff) and isinstance(b, Aff):
         return ret(st, I.binop(st, "Ne" if neg else "Eq", a, b))
+    if all(isinstance(x, Struct) and x.adt == "(tuple)" for x in (a, b)) and set(a.fields) == set(b.fields) and a.fields:
+        # tuples compare member by member, left to right; `eq` stops at the first unequal pair
+        outs = []
+        cur = [st]
+        decided = True
+        for k in sorted(a.fields, key=lambda z: int(z) if z.isdigit() else 0):
+            nxt = []
+            for s_ in cur:
+                xa, xb = deref(I, s_, a.fields[k]), deref(I, s_, b.fields[k])
+                if all(isinstance(x, StrV) or isinstance(x, Seq) and x.kind == "str" for x in (xa, xb)):
+                    for s2, r in str_eq(I, s_, a.fields[k], b.fields[k]):
+                        (nxt if r else outs).append(s2) if r else outs.append(s2)
+                elif isinstance(xa, Aff) and isinstance(xb, Aff):
+                    for s2, r in fork_bool(I, s_, I.compare(s_, "Eq", xa, xb)):
+                        nxt.append(s2) if r else outs.append(s2)
+                else:
+                    decided = False
+            cur = nxt
+        if decided:
+            return [(s2, "return", BoolV(neg)) for s2 in outs] + [(s2, "return", BoolV(not neg)) for s2 in cur]
     if all(isinstance(x, Struct) and x.adt == "core::option::Option" and x.variant in ("Some", "None") for x in (a, b)):
         # Option<text> == Option<text>: the same variant, and equal contents
         if a.variant != b.variant:
@@ -1050,10 +1070,24 @@ def m_now(I, st, info, args, depth):
     return ret(st, Sym("now", "time::OffsetDateTime", attrs={"instant": True, "now": True}))
 
 
-@model(r"^core::cmp::PartialOrd::(le|lt|ge|gt)$|^core::cmp::Ord::cmp$")
+def _ordering(rel, partial):
+    v = Struct("core::cmp::Ordering", {"<": "Less", "=": "Equal", ">": "Greater"}[rel], {})
+    return some(v) if partial else v
+
+
+@model(r"^core::cmp::PartialOrd::(le|lt|ge|gt|partial_cmp)$|^core::cmp::Ord::cmp$")
 def m_ord(I, st, info, args, depth):
     a, b = deref(I, st, args[0]), deref(I, st, args[1])
     op = info["tdef"].split("::")[-1]
+    if isinstance(a, Aff) and isinstance(b, Aff) and op in ("cmp", "partial_cmp"):
+        out = []
+        for s2, lt in fork_bool(I, st, I.compare(st, "Lt", a, b)):
+            if lt:
+                out.append((s2, "return", _ordering("<", op == "partial_cmp")))
+                continue
+            for s3, eq in fork_bool(I, s2, I.compare(s2, "Eq", a, b)):
+                out.append((s3, "return", _ordering("=" if eq else ">", op == "partial_cmp")))
+        return out
     if isinstance(a, Aff) and isinstance(b, Aff):
         return ret(st, I.compare(st, {"le": "Le", "lt": "Lt", "ge": "Ge", "gt": "Gt"}[op], a, b))
     shifted = [x for x in (a, b) if isinstance(x, Sym) and abs(x.attrs.get("offset_secs") or 0) > 2]
@@ -1074,6 +1108,9 @@ def m_ord(I, st, info, args, depth):
                 s2.cond.append("%s %s %s" % (x.name, rel, y.name))
             # truth of (a op b)
             r = rel if not flip else {"<": ">", "=": "=", ">": "<"}[rel]
+            if op in ("cmp", "partial_cmp"):
+                out.append((s2, "return", _ordering(r, op == "partial_cmp")))
+                continue
             truth = {"le": r in "<=", "lt": r == "<", "ge": r in ">=", "gt": r == ">"}[op]
             out.append((s2, "return", BoolV(truth)))
         return out
@@ -1136,6 +1173,19 @@ def m_time_transform(I, st, info, args, depth):
         at.update({"instant": True, "offset_secs": secs, "base": base})
         return ret(st, Sym("%s%+ds" % (base, secs) if secs else base, "time::OffsetDateTime", attrs=at))
     return ret(st, Sym("%s(%s)" % (op, nm), "time::?", attrs=at))
+
+
+@model(r"^time::offset_date_time::OffsetDateTime::checked_to_offset$")
+def m_time_checked_to_offset(I, st, info, args, depth):
+    """the same instant in another offset, or None when its rendering there leaves the supported range (a clock reading never does)"""
+    a = deref(I, st, args[0])
+    if not isinstance(a, Sym):
+        return None
+    if a.attrs.get("now"):
+        return ret(st, some(a))
+    s2 = st.clone()
+    s2.cond.append("checked_to_offset(%s) leaves the supported range of OffsetDateTime" % a.name)
+    return [(st, "return", some(a)), (s2, "return", none())]
 
 
 # ------------------------------------------------------------------ generic trait methods of the crate
@@ -1653,7 +1703,7 @@ def m_into_bytes(I, st, info, args, depth):
 # opaque, never panicking (SAFE table): return an opaque value / unit
 SAFE_UNIT = (r"^digest::Update::update$|^digest::mac::Mac::update$|^digest::digest::Digest::update$|^cipher::stream::StreamCipher::apply_keystream$|^zeroize::Zeroize::zeroize$|"
              r"^core::mem::drop$")
-SAFE_OPAQUE = (r"^digest::digest::Digest::(new|new_with_prefix|chain_update)$|^cipher::common::NewCipher::new$|^crypto_common::KeyIvInit::new$|^ring::hkdf::Salt::new$|^ring::hkdf::Salt::extract$|^ring::signature::UnparsedPublicKey::<B>::new$|"
+SAFE_OPAQUE = (r"^digest::digest::Digest::(new|new_with_prefix|chain_update)$|^digest::mac::Mac::chain_update$|^digest::Update::chain$|^cipher::common::NewCipher::new$|^crypto_common::KeyIvInit::new$|^ring::hkdf::Salt::new$|^ring::hkdf::Salt::extract$|^ring::signature::UnparsedPublicKey::<B>::new$|"
                r"^core::default::Default::default$|^ring::rand::SystemRandom::new$|^serde_json::value::Value::to_string$|^time::offset_date_time::OffsetDateTime::to_string$")
 
 
@@ -1915,6 +1965,20 @@ def m_text_predicate(I, st, info, args, depth):
     if info["def"] in I.facts.bodies:
         return None
     op = info["tdef"].split("::")[-1]
+    vals = [deref(I, st, a) for a in args]
+    if len(vals) == 2 and op in ("contains", "starts_with", "ends_with", "eq_ignore_ascii_case"):
+        b = vals[1]
+        pc = I.resolve(st, args[1])
+        if isinstance(pc, Aff) and pc.is_const() and "char" in info["name"]:
+            b = StrV(chr(pc.const))
+        a = vals[0]
+        if isinstance(a, StrV) and isinstance(b, StrV) and type(a.s) is type(b.s):
+            # both texts are known: the answer is computed
+            r = {"contains": lambda: b.s in a.s, "starts_with": lambda: a.s.startswith(b.s), "ends_with": lambda: a.s.endswith(b.s),
+                 "eq_ignore_ascii_case": lambda: a.s.lower() == b.s.lower()}[op]()
+            return ret(st, BoolV(bool(r)))
+    if len(vals) == 1 and op == "is_ascii" and isinstance(vals[0], StrV):
+        return ret(st, BoolV(all((ord(c) if isinstance(c, str) else c) < 128 for c in vals[0].s)))
     return ret(st, SymBool((op,) + tuple(describe(I, st, a) for a in args)))
 
 
